@@ -73,7 +73,7 @@ class LogPublisher:
 
         brokenObservers = []
 
-        for observer in self._observers:
+        for observer in list(self._observers):
             if trace is not None:
                 trace(observer)
 
